@@ -274,7 +274,7 @@ func batchSizeClass(n int) string {
 var batchSizes = []int{0, 1, 2, 3, 4, 5, 6, 7, 8, 9, 31, 32, 33, 62, 63, 64, 65, 66, 67, 68, 69, 70, 126, 127, 128, 129, 130, 131, 132, 133, 191, 192, 193, 194, 200}
 
 var badKinds = []string{"wrong-msg", "flip-R", "flip-S", "flip-key", "S+L", "so-key", "so-R", "undecodable-key", "undecodable-R",
-	"short-key", "long-key", "nil-key", "short-sig", "long-sig", "long-sig-zeropad", "nil-sig", "empty-sig", "topbits-S", "zip-only-smallkey", "zip-only-R", "S=L-smallkey", "wrong-prehash-len", "other-variant-sig"}
+	"short-key", "long-key", "nil-key", "short-sig", "long-sig", "long-sig-zeropad", "nil-sig", "empty-sig", "topbits-S", "zip-only-smallkey", "zip-only-R", "S=L-smallkey", "wrong-prehash-len", "other-variant-sig", "ph-sig-over-wrong-len"}
 
 // entry factory: a few model-signed honest triples per batch variant are
 // recycled (signing with the model costs ~1 ms).
@@ -407,6 +407,18 @@ func (p *entryPool) badEntry(kind string) gen.Triple {
 		sd := gen.Seed(rng)
 		pub, sig := ref.Sign(sd, m, ov)
 		t = gen.Triple{Pub: pub, Msg: m, Sig: sig, V: p.v, Family: kind}
+	case "ph-sig-over-wrong-len":
+		// Ed25519ph only: a signature that satisfies the ph equation over a
+		// "digest" of the wrong length (the public API refuses to produce one,
+		// the model does not); the entry must report false because of the
+		// length alone, and nothing else in its chunk makes the fallback run
+		if p.v.Ph {
+			m := gen.RandBytes(rng, []int{0, 1, 32, 63, 65, 128}[rng.Intn(6)])
+			pub, sig := ref.Sign(gen.Seed(rng), m, p.v)
+			t = gen.Triple{Pub: pub, Msg: m, Sig: sig, V: p.v, Family: kind}
+		} else {
+			t.Msg = append(t.Msg, 0)
+		}
 	case "wrong-prehash-len":
 		if p.v.Ph {
 			t.Msg = gen.RandBytes(rng, []int{0, 1, 63, 65, 128}[rng.Intn(5)])
@@ -443,6 +455,15 @@ func runC06(cfg *Cfg, rec *ev.Rec) {
 		// choose bad-position pattern
 		mode := rng.Intn(10)
 		badAt := map[int]bool{}
+		forceKind := ""
+		if v.Ph && bi%3 == 1 {
+			// directed: the only bad entry of the batch is a ph signature over a
+			// wrong-length digest (no other entry makes the fallback run)
+			mode, forceKind = 2, "ph-sig-over-wrong-len"
+			if n < 4 {
+				n = sweep[rng.Intn(len(sweep))]
+			}
+		}
 		switch {
 		case mode < 2: // none
 		case mode < 5: // one, position swept deterministically across batches
@@ -469,7 +490,9 @@ func runC06(cfg *Cfg, rec *ev.Rec) {
 		}
 		for i := 0; i < n; i++ {
 			var t gen.Triple
-			if badAt[i] {
+			if badAt[i] && forceKind != "" {
+				t = pool.badEntry(forceKind)
+			} else if badAt[i] {
 				t = pool.badEntry(badKinds[rng.Intn(len(badKinds))])
 			} else {
 				t = pool.goodEntry()
